@@ -184,8 +184,30 @@ def run(chk, only=None):
         for _ in range(500 if quick else 5000):
             inputs.append((rng.randint(0, 3), bytes(rng.choice(b"(){}[];,*&=+-<>?:.#\"'\\/ \nintxyTuL01%^|~!") for _ in range(rng.randint(1, 30)))))
         inputs += pathological(rng, quick)
+        # the directive and marker code of Lexer::lex ('#' at the start of a line: line directives, Qt Creator expansion markers)
+        dwords = [b"expansion", b"begin", b"end", b"line", b"~", b"~3", b"~4000000000", b"~18446744073709551615", b"1", b"7", b"1,2", b"4:5", b":", b",", b"\"f.c\"", b"x", b"include", b"<a.h>",
+                  b"define", b"\\\n", b"\n", b"#", b"##", b"/*", b"*/", b"//", b"'", b"\"", b"0x", b"99999999999999999999", b"int y;"]
+        for _ in range(400 if quick else 6000):
+            line = b"#" + rng.choice([b"", b" "]) + b" ".join(rng.choice(dwords) for _ in range(rng.randint(0, 9)))
+            inputs.append((rng.choice([0, 0, 0, 1, 2, 3]), rng.choice([b"", b"int a;\n", b"\\\n"]) + line + rng.choice([b"", b"\nint x;", b"\n#line 3\nint z;"])))
+    # the witnesses of the defects repaired so far (known_findings.json, "fixed"): run first, in every flavour
+    corpus_plan = []
+    if not only:
+        for e in pv.known_findings().get("fixed", []):
+            w = (e.get("witness") or "").split()
+            if e.get("property") in ("C01", "C02") and len(w) == 4 and w[0] == "total":
+                try:
+                    corpus_plan += [(fl, int(w[1]), w[2], bytes.fromhex(w[3])) for fl in ("plain", "asan", "asan-ndebug")]
+                except ValueError:
+                    pass
+            elif e.get("property") in ("C01", "C02") and len(w) == 3 and w[0] == "lex":
+                try:
+                    corpus_plan += [(fl, 0, w[1] + ":0:2" if w[1].count(":") == 2 else w[1], bytes.fromhex(w[2])) for fl in ("plain", "asan", "asan-ndebug")]
+                except ValueError:
+                    pass
+    dist["regression_corpus_requests"] = len(corpus_plan)
     flavours = ["plain", "asan", "asan-ndebug"]
-    plan = []     # (flavour, cat, opts, text)
+    plan = list(corpus_plan)     # (flavour, cat, opts, text)
     for i, (c, t) in enumerate(inputs):
         if only:
             for fl in flavours:
@@ -242,7 +264,7 @@ def run(chk, only=None):
     chk.coverage["rule"] = ("cursor models: random byte strings (ASCII, lead/continuation bytes, truncated sequences, NULs) through repeated yyinput_CORE; every recovery function, skipTo, match and backtrack at "
                             "(sampled) every cursor position of lexed corpus texts — extracted model vs compiled code.  Whole front end (parseText in all four syntax categories, option sets %s): the %d snippets of the "
                             "repository's tests, token-level mutants, truncation at every byte, byte-level damage (random bytes, invalid UTF-8, quotes, NULs), random bytes, random punctuation soup, nesting at 1..99 and just beyond the "
-                            "declared limits, unterminated constructs — in the plain NDEBUG build and (a share of them) under ASan+UBSan with and without NDEBUG, each batch re-run per request in a forked child after a crash. "
+                            "declared limits, unterminated constructs, '#' lines (line directives and expansion markers with random arguments), the witnesses of every repaired defect — in the plain NDEBUG build and (a share of them) under ASan+UBSan with and without NDEBUG, each batch re-run per request in a forked child after a crash. "
                             "Accepted outcomes: a tree (TranslationUnit root for whole units, all token extents inside the text, final EOF) or one of the two declared nesting errors. non-trivial = at least 4 bytes" % (OPTSETS, len(snippets)))
     chk.coverage["samples"] = [repr(inputs[i][1][:80]) for i in (3, len(inputs) // 2, len(inputs) - 5) if i < len(inputs)] if not only else [repr(only[1][:80])]
     chk.coverage["distribution"] = dist
